@@ -9,7 +9,7 @@ NOTE_COMMON = ("Trusted: Lean 4.33 kernel + Mathlib (axioms propext, Classical.c
                "floating-point rounding, overflow and the sparse solver are not modelled.")
 
 T = "Lean 4 proof (kernel-checked theorems about the model) + model/implementation correspondence (exact-rational driver vs real code); failing-input search on the implementation when either breaks"
-TG = T + "; the coefficient formulas of the matrix builders, ghost cells and boundary rows are REGENERATED from the numpy source on every run (translators T-num, T-upw, T-bc, T-avg; solver assembly T-asm; caching state machine T-state) and proved equal to the model"
+TG = T + "; the coefficient formulas of the matrix builders, ghost cells and boundary rows are REGENERATED from the numpy source on every run (translators T-mesh, T-num, T-upw, T-bc, T-avg; solver assembly T-asm; caching state machine T-state) and proved equal to the model"
 CLAIMED = {
     "C01": (TG, "Every flux-form term of the model is the divergence of a face flux (C05 lemmas) and the consistent-volume-weighted sum of a divergence along any grid "
             "line telescopes to the two boundary faces for every number of cells (Finset.sum_range_sub) — so interior fluxes cancel for all sizes, spacings and fields; "
@@ -54,14 +54,14 @@ CLAIMED = {
             "copies get fresh BC objects and are independent in both directions, explicit results are usable by the implicit solver. The model is compared step by step "
             "with the real objects (flags, sharing, decoded freshness of cache and ghost layer, solve == fresh start) on random and bounded-exhaustive histories.",
             "§6 C09", "Counterexample theorems document the three repaired defects (shared BC object, explicit->implicit, copy of an outdated variable)."),
-    "C10": (T, "Constructor laws for every strictly increasing face list of any length; (N,L) form = face form on equispaced faces; cellvolume = geometric volume per cell for 8 classes "
+    "C10": (TG, "Constructor laws for every strictly increasing face list of any length; (N,L) form = face form on equispaced faces; cellvolume = geometric volume per cell for 8 classes "
             "(annular sectors, shells), positivity, telescoping totals; SphericalGrid3D theta-factor proved NOT geometric over the reals (known finding).",
             "§6 C10", "Known finding sph3-cellvolume-theta-factor replayed every run."),
     "C11": (TG, "Two-point width-weighted means: betweenness, constants, HM <= AM over any ordered field, HM <= GM <= AM over the reals (Real.exp/log), linear exactness of linearMean on "
             "non-uniform grids, locality, donor-cell / inflow-boundary / zero-velocity cases of upwindMean, zero handling of harmonic and geometric means identical in 1-D and N-D.",
             "§6 C11", ""),
     "C12": (TG, "Transient row law alpha (x - old)/dt + L x = s for scalar or per-cell alpha; steady solutions are fixed points for every dt, alpha (and reproduced given uniqueness); exact identities "
-            "giving the dt -> infinity and dt -> 0 laws with explicit constants; explicit step = old + dt RHS with ghosts re-imposed; implicit/explicit gap = (dt^2/alpha^2) L(s - L x).",
+            "giving the dt -> infinity and dt -> 0 laws with explicit constants, and the limits themselves as Filter.Tendsto theorems over the reals for M-matrix spatial operators (C12Lim); explicit step = old + dt RHS with ghosts re-imposed; implicit/explicit gap = (dt^2/alpha^2) L(s - L x).",
             "§6 C12", ""),
     "C13": ("Lean 4 proof about the limiter formulas GENERATED from utilities.py on every run (translator T-lim) + numeric cross-check of the translation",
             "For all 16 names, all r and eps>0: every denominator non-zero, value = published closed form (value 0 at removable singularities), psi(1)=1, 0<=psi<=min(2r,4) for r>0, "
